@@ -53,7 +53,7 @@ def run(ctx):
     from engine import fsdriver
     from props import c05, c14
     ctx.coverage = {}
-    fsdriver.run_property(ctx, walk_combos(ctx), 'c05_classify', 3000 if ctx.quick else 60000, lambda p: c05.describe(p) if isinstance(p[0][0], tuple) else c14.describe(p),
+    fsdriver.run_property(ctx, walk_combos(ctx), 'c05_classify', 3000 if ctx.quick else 60000, describe_walk,
                           known_from=('C05',))
     walk_cov = ctx.coverage
     ctx.coverage = match_cov
@@ -62,6 +62,15 @@ def run(ctx):
     ctx.coverage['walk_side'] = {k: walk_cov[k] for k in ('evaluations', 'distinct_nontrivial', 'combos', 'solver_calls', 'solver_time_s', 'known_region_hits',
                                                           'combos_not_exhausted_within_path_cap', 'traces_validated_against_impl', 'samples')}
     ctx.coverage['exhaustive'] = ctx.coverage.get('exhaustive', True) and walk_cov.get('exhaustive', True)
+
+
+def describe_walk(p):
+    from props import c05, c13, c14
+    if len(p) == 2:
+        return c05.describe(p)
+    if len(p) == 5 and isinstance(p[3], int):
+        return c13.describe(p)
+    return c14.describe(p)
 
 
 def walk_combos(ctx):
@@ -81,6 +90,14 @@ def walk_combos(ctx):
         for f in (fsets if not ctx.quick else [fsets[0], fsets[1], fsets[2 + k % (len(fsets) - 2)], fsets[4]]):
             for t in ('hid', 'hid2', 'dotlink', 'flat'):
                 out.append(('c05', t, (ast, f)))
+    # exclusion patterns (NEGATE / exclude=) always behave as if DOTGLOB were set - also in the walker
+    N = G.NEGATE
+    for inc in (['.*'], ['.d/*', 'a/.*'], ['**/.*'], ['*', '.*'], ['.h', 'a/.y']):
+        for ex in (['*'], ['**/x'], ['*/x'], ['**/*'], ['.*/'], ['?h']):
+            for fl in (S, S | D):
+                for t in ('hid', 'hid2', 'dotlink', 'flat'):
+                    out.append(('c13', t, (list(inc), tuple(inc), tuple(ex), fl, True)))
+                    out.append(('c13', t, (list(inc) + ['!' + e for e in ex], tuple(inc), tuple(ex), fl | N, False)))
     R, H, SY = W.RECURSIVE, W.HIDDEN, W.SYMLINKS
     for c in [(('*',), (), (), (), R), (('*',), (), (), (), R | SY), (('.*',), (), (), (), R), (('.*',), (), (), (), R | H), (('x',), (), (), (), R | SY),
               (('*',), (), ('a',), (), R | SY), ((), (), (), (), R), ((), ('x',), (), (), R | SY)]:
